@@ -725,7 +725,7 @@ theorem syncRemoveSession_cancels {env : DEnv} {s : DState} (h : DealerInv s) (k
     (hv : v ∈ s.d.invs) {tid : Nat} (hvt : v.timer = some tid)
     (hgone : v.callId ∉ (syncRemoveSession env s k).st.d.calls) :
     TimersGrowC tid s.timers (syncRemoveSession env s k).st.timers := by
-  obtain ⟨s1, h1, hcs, hi, _, ht, _, he⟩ := removeSession_mid (env := env) h k
+  obtain ⟨s1, h1, hcs, hi, _, ⟨ht, _⟩, _, he⟩ := removeSession_mid (env := env) h k
   have hpend : v.callId ∈ s1.d.calls := hcs ▸ (h.call.inv_call hv).1
   have hv1 : v ∈ s1.d.invs := hi ▸ hv
   have hcur : ∀ u ∈ s1.d.invs, u.callId ∈ s1.d.calls → ∃ cur ∈ s1.d.invs, cur.id = u.id ∧ cur.callId = u.callId :=
